@@ -108,6 +108,10 @@ def cycle(run, src, cfg, kw, k, tags, pend, nontrivial=True):
         run.dist["input-unreadable"] += 1
         return
     try:
+        first_refresh = c16.refresh_condition(L)      # decided on the object as read, before the write changes it
+    except Exception:
+        first_refresh = None
+    try:
         x = c16.write(L, cfg)
     except Exception as e:
         run.dist["input-unwritable:" + type(e).__name__] += 1
@@ -117,7 +121,7 @@ def cycle(run, src, cfg, kw, k, tags, pend, nontrivial=True):
     except Exception as e:
         run.dist["first-output-unreadable:" + type(e).__name__] += 1
         return
-    ctx = context(L, cfg)
+    ctx = context(L, cfg, first_refresh)
     run.case(case, nontrivial=nontrivial, tags=list(tags) + ["version=%s" % cfg["version"], "wrap=%s" % cfg["wrap"], "fmt=" + cfg["fmt"]])
     prev_text, prev = x, canon(L1)
     cur = L1
@@ -259,6 +263,34 @@ LEADING_PERIOD_UNIT = ("~V\nVERS. 2.0 : v\nWRAP. NO : w\n~W\nSTRT..1IN 1.0 : s\n
                        "~C\nDEPT ..1IN : d\nA. : a\n~A\n1.0 5\n2.0 6\n")
 COLON_VALUE = ("~V\nVERS. 2.0 : v\nWRAP. NO : w\n~W\nSTRT.M 1.0 : s\nSTOP.M 2.0 : s\nSTEP.M 1.0 : s\nNULL. -999.25 : n\n"
                "TIME. 12:30 : start time\n~C\nDEPT.M : d\nA. : a\n~A\n1.0 5\n2.0 6\n")
+def special_docs(rng):
+    """inputs that need something specific: several ' : ' on a ~Well line (the value keeps all but the last), very long header
+    items, an index with more decimals than '%.5f' prints next to a STOP that does not state its last value, header numbers in
+    exponent notation"""
+    head = "~V\nVERS. 2.0 : v\nWRAP. NO : w\n~W\n"
+    tail = "~C\nDEPT.M : d\nA. : a\n~A\n"
+    out = []
+    for line in ("COMP. ANY OIL COMPANY INC. : WESTERN DIVISION : COMPANY", "DATE. 13-DEC-86 : 14:30 : LOG DATE", "LOC. A : B : C : D",
+                 "SRVC. \"quoted : text\" : x : service", "FLD . a:b : c : field"):
+        out.append((head + "STRT.M 1.0 : s\nSTOP.M 2.0 : s\nSTEP.M 1.0 : s\nNULL. -999.25 : n\n" + line + "\n" + tail + "1.0 5\n2.0 6\n", "multi-colon"))
+    for n in (70, 79, 80, 95, 140):
+        words = " ".join("w%d" % i for i in range(n // 4))[:n]
+        out.append((head + "STRT.M 1.0 : s\nSTOP.M 2.0 : s\nSTEP.M 1.0 : s\nNULL. -999.25 : n\nLOC.M1250 " + words + " : location\n~P\nREM.X " + words +
+                    " : remark\n" + tail + "1.0 5\n2.0 6\n", "long-item"))
+    for k in range(6):
+        a = round(rng.uniform(100, 4000), rng.choice([6, 7, 9]))
+        step = round(rng.uniform(0.01, 2), rng.choice([6, 8]))
+        idx = [a + i * step for i in range(4)]
+        stop = rng.choice(["%.4f" % idx[-1], "%.2f" % idx[-1], "%.6f" % (idx[-1] + step), repr(idx[-1])])
+        rows = "".join("%r %d\n" % (x, i) for i, x in enumerate(idx))
+        out.append((head + "STRT.FT %r : s\nSTOP.FT %s : s\nSTEP.FT %r : s\nNULL. -999.25 : n\n" % (idx[0], stop, step) + "~C\nDEPT.FT : d\nA. : a\n~A\n" + rows,
+                    "fine-index"))
+    for v in ("2e-05", "1.5E-7", "1e16", "1E+20", "-4.25e-09", "0.00002"):
+        out.append((head + "STRT.M 1.0 : s\nSTOP.M 2.0 : s\nSTEP.M 1.0 : s\nNULL. -999.25 : n\nRMF.OHMM %s : r\n~P\nEPS.OHMM %s : e\n" % (v, v) + tail + "1.0 5\n2.0 6\n",
+                    "exponent-value"))
+    return out
+
+
 PLAIN = dict(version=2.0, wrap=None, fmt="%.5f", column_fmt=[], len_numeric_field=None, lhs_spacer=" ", spacer=" ", data_width=79,
              header_width=60, mnemonics_header=False, data_section_header="~ASCII")
 
@@ -306,6 +338,10 @@ def classify(failure):
             ("unit-leading-period", lambda p: p[2].startswith(".") or p[0].endswith(".")),
             ("blank-mnemonic-period", lambda p: p[0].strip() == ""),
             ("colon-in-field", lambda p: ":" in p[3][1] or ":" in p[4] or ":" in p[2])]
+    # every one of these families MOVES text between the fields of an item (the characters of the written line are the same, they
+    # are split differently); a drift that adds or loses other characters is not one of them
+    if not all(conserved(e[1], e[2]) for e in items):
+        return None
     for kid, test in fams:
         if all(test(e[1]) or test(e[2]) for e in items):
             return kid
@@ -316,9 +352,22 @@ def classify(failure):
     return None
 
 
-def context(L, cfg):
+def item_chars(p):
+    import collections
+    v = p[3]
+    vt = repr(float.fromhex(v[1])) if v[0] == "n" and v[1] not in ("nan", "inf", "-inf") else str(v[1])
+    return collections.Counter(ch for ch in (p[0] + p[2] + vt + p[4]) if not ch.isspace() and ch not in "0.:+-eE")
+
+
+def conserved(p, q):
+    """the two dumps of one item hold the same characters (blanks, the delimiters '.' ':' and the characters a number may gain or
+    lose when it is re-printed or an empty value becomes 0 are not counted)"""
+    return item_chars(p) == item_chars(q)
+
+
+def context(L, cfg, first_refresh=None):
     """facts about the INPUT object the classifier needs"""
-    out = {}
+    out = {"first_refresh": first_refresh}
     try:
         out["dlm"] = str(L.version["DLM"].value)
     except Exception:
@@ -339,8 +388,12 @@ def context(L, cfg):
         cf = dict((int(k), f) for k, f in cfg["column_fmt"]).get(0, cfg["fmt"])
         idx = [float(x) for x in L.index]
         probe = [x for x in (idx[:2] + idx[-1:]) if math.isfinite(x)]
-        # the index as written (column format) or as stated by a refresh ('%.5f') is not the index in memory
-        out["index_format_lossy"] = any(float(cf % x) != x or float("%.5f" % x) != float(cf % x) for x in probe)
+        # the known drift: the header states STRT/STOP more precisely than the data section prints the index.  Either the first
+        # write refreshed them ('%.5f' of the index in memory) and the index column is printed with a coarser format, or it did
+        # not refresh them (the file's STOP equals the unrounded index) and the column format rounds the index.  A first write that
+        # refreshes with the precision of the index column leaves nothing to drift.
+        out["index_format_lossy"] = any(float("%.5f" % x) != float(cf % x) for x in probe) or \
+            (not first_refresh and any(float(cf % x) != x for x in probe))
     except Exception:
         out["index_format_lossy"] = False
     return out
@@ -367,6 +420,10 @@ def run(run):
                         % spelling + "".join("C%d.M : c\n" % j for j in range(ncur)) + "~A\n" + rows)
                 for wrap in (None, True, False):
                     cycle(run, {"kind": "text", "text": text}, dict(PLAIN, wrap=wrap, data_width=dw), {}, 3, ["wrap-spelling"], pend)
+    for text, tag in special_docs(rng):
+        for j in range(run.budget(2, 6)):
+            cfg = PLAIN if j == 0 else gen_cfg(rng, plain=rng.random() < 0.3)
+            cycle(run, {"kind": "text", "text": text}, cfg, {}, K, ["special:" + tag], pend)
     # the example corpus, as it is and mutated
     files = corpus()
     for rel in files:
